@@ -51,7 +51,8 @@ CONFIG = {
                  'tau:unreachable', 'tau:shuffle', 'tau:retype',
                  'tau:distinct_objects', 'tau:atoms_long', 'tau:atoms_related',
                  'logic:CTL', 'logic:LTL', 'logic:CTLS', 'bulk:CTL',
-                 'block:long_names', 'block:cyclic_ltl'],
+                 'block:long_names', 'block:cyclic_ltl',
+                 'block:composite_names'],
     'rule': ('cases = (structure, formula, logic) from a seeded list; each '
              'evaluated under every hash seed of the run (fresh interpreter '
              'per seed) and under 6 transformations in-process. non-trivial '
@@ -490,6 +491,77 @@ def long_name_block(ctx):
             k += 1
 
 
+def composite_name_block(ctx):
+    """Three-atom formulas under renamings in which one atom's name is put
+    together from the other two (a, b, a_b / ab / a_and_b / b_a ...), on
+    structures where one state carries exactly the two components and another
+    exactly the composite.  Anything that identifies a label SET by joining
+    its names (a key, a printed form, a fresh identifier) confuses the two."""
+    import itertools
+    p, q, r_ = ('ap', 'p'), ('ap', 'q'), ('ap', 'r')
+    forms = [('LTL', ('A', ('or', r_, ('X', ('and', p, q))))),
+             ('LTL', ('A', ('G', ('imply', p, ('F', r_))))),
+             ('LTL', ('A', ('U', ('and', p, q), r_))),
+             ('LTL', ('A', ('F', ('and', r_, ('not', p))))),
+             ('LTL', ('A', ('X', ('or', ('and', p, q), ('X', r_))))),
+             ('LTL', ('A', ('R', r_, ('or', p, q)))),
+             ('CTL', ('E', ('X', ('and', p, ('and', q, ('not', r_)))))),
+             ('CTL', ('A', ('G', ('or', r_, ('E', ('X', ('and', p, q))))))),
+             ('CTL', ('E', ('U', ('or', p, q), r_))),
+             ('CTLS', ('E', ('and', ('F', r_), ('G', ('or', p, q))))),
+             ('CTLS', ('A', ('F', ('G', ('or', ('and', p, q), r_))))),
+             ('CTLS', ('E', ('X', ('and', ('X', r_), ('and', p, q)))))]
+    shapes = [([0b010, 0b100, 0b001], [{'p', 'q'}, {'r'}, {'p'}]),
+              ([0b011, 0b100, 0b101], [{'r'}, {'p', 'q'}, {'q'}]),
+              ([0b0010, 0b0101, 0b1000, 0b0001],
+               [{'p', 'q'}, {'r'}, {'q'}, set()]),
+              ([0b0110, 0b1000, 0b1001, 0b0001],
+               [{'p'}, {'p', 'q'}, {'r'}, {'p', 'q', 'r'}]),
+              ([0b10, 0b01], [{'r'}, {'p', 'q'}])]
+    fams = [('a', 'b', 'a_b'), ('a', 'b', 'ab'), ('a', 'b', 'b_a'),
+            ('x', 'y', 'x_and_y'), ('a', 'b', 'a__b'), ('a', 'b', 'a_or_b'),
+            ('a', 'b', 'a b'.replace(' ', '')), ('p', 'q', 'p_q'),
+            ('a', 'b', 'a_b_'), ('a_', 'b', 'a__b'), ('a', '_b', 'a__b')]
+    k = 0
+    for succ, labs in shapes:
+        nk = NK(range(len(succ)), succ, [frozenset(l) for l in labs])
+        for logic, t in forms:
+            base = None
+            for fam in fams:
+                for perm in itertools.permutations(fam):
+                    k += 1
+                    if not ctx.mine(k):
+                        continue
+                    if perm.index(fam[2]) != 2 and k % 3:
+                        continue      # the composite mostly stands for r
+                    if base is None:
+                        base, _ = run_base(logic, nk, t)
+                    ren = dict(zip(('p', 'q', 'r'), perm))
+                    nk2 = NK(nk.states, nk.succ,
+                             [frozenset(ren[a] for a in l)
+                              for l in nk.labels])
+                    LOG.hit('c06.meta')
+                    LOG.sig['block:composite_names'] += 1
+                    try:
+                        K = build_K(nk2)
+                        res = mc(logic, K, build(lang(logic),
+                                                 rename_atoms(t, ren)))
+                        out = canon(res, nk2)
+                    except Exception as e:
+                        out = 'raise:' + type(e).__name__
+                    if out != base:
+                        LOG.violation('c06.meta', PROP,
+                                      {'case_index': 4000000 + k,
+                                       'logic': logic, 'K': nk.to_json(),
+                                       'formula': t, 'renaming': ren,
+                                       'transformation': 'composite atom '
+                                                         'names'},
+                                      out, base,
+                                      note='answer changed when atoms were '
+                                           'renamed so that one name is put '
+                                           'together from two others')
+
+
 def cyclic_ltl_block(ctx):
     """Cyclic structures with 5-6 states and tail-dependent LTL / CTL*
     formulas (F G, G F, U G): the fulfilling cycle spans several tableau
@@ -541,6 +613,7 @@ def cyclic_ltl_block(ctx):
 def run(ctx):
     attach()
     long_name_block(ctx)
+    composite_name_block(ctx)
     cyclic_ltl_block(ctx)
     bulk_ctl(ctx)
     ncases = 320 if ctx.quick else 4800
@@ -618,6 +691,14 @@ def replay(ctx, rep):
     attach()
     c = rep['case']
     idx = c['case_index']
+    if idx >= 4000000:
+        class _C4(object):
+            pass
+        cc = _C4()
+        want = idx - 4000000
+        cc.mine = lambda i: i == want
+        composite_name_block(cc)
+        return
     if idx >= 3000000:
         from ..mcwork import to_tuple, nk_from_json
         nk = nk_from_json(c['K'], real_names=True)
